@@ -6,7 +6,8 @@ RULE = ("plane A: every counter of get_statistics() compared with the monitor's 
         "(passes, executions by outcome, no-change = output box equals input box, choices, successful backtracks, "
         "depth, solutions delivered, shaving probes by outcome) after every delivered solution (quiescent points) and "
         "at the end of enumeration / optimisation runs; conservation laws checked in both modes; multiprocessing "
-        "totals vs per-worker sums through the schedule shim. distinct = distinct (model, cfg, operation); "
+        "totals vs per-worker sums through the schedule shim; the laws also on large planted models (arity <= 14, compiled). "
+        "distinct = distinct (model, cfg, operation); "
         "non-trivial = >= 1 choice")
 
 
@@ -16,19 +17,29 @@ def mp_jobs(tier, seed):
                 {"props": ["C17"], "seed": seed * 313 + k, "count": 20 if q else 200, "enum_limit": 2000,
                  "samples": 100, "deadline_s": 60 if q else 600},
                 mode="interp" if k % 2 else "jit", timeout=300 if q else 1500, tag="mpshim:%d" % k, stall_s=90)
-            for k in range(2 if q else 6)]
+            for k in range(2 if q else 6)] + bigrun_jobs(tier, seed)
+
+
+def bigrun_jobs(tier, seed):
+    from framework.props import bigrun
+
+    return bigrun.jobs("C17", tier, seed + 5)
 
 
 def main(tier, seed):
     def post(rep, extra):
-        mpfamily.aggregate(rep, extra)
+        from framework.props import bigrun
+
+        mpfamily.aggregate(rep, [j for j in extra if j.module == "framework.props.mpfamily"])
+        bigrun.aggregate(rep, [j for j in extra if j.module == "framework.props.bigrun"])
 
     rep = _modelprop.run(
         "C17", tier, seed, RULE, do=["enum", "opt"], monitors=["budget", "stats"], extra_jobs=mp_jobs, post=post,
         needs=[("stats.comparisons", 5000, "counter comparisons"),
                ("stats.quiescent_point_comparisons", 3000, "partial-enumeration comparisons"),
                ("law_checks", 2000, "conservation laws"), ("runs_jit", 300, "compiled runs (laws)"),
-               ("mp.cases", 20, "multiprocessing aggregation")],
+               ("mp.cases", 20, "multiprocessing aggregation"),
+               ("big.statistics_vectors_checked", 500, "laws on large compiled models")],
         assumptions=["inconsistency counter = executions answering inconsistency (a pass that ends because the views of "
                      "one shared domain are disjoint moves no propagator counter)",
                      "compiled mode: laws only; exactness is inherited through C15 (identical statistics in both modes)"])
